@@ -21,8 +21,11 @@
     vertex and kept miter tip lie on both offset lines), `front_side_cases`, `join_sides_nofold_left/right`
     (the branch structure of `compute_join_side_positions_fixed_width` when the join does not fold);
   * `join_triangle_contains_vertex`: the join triangle covers the join position;
-  * `round_subdivision_witness` / `round_subdivision_partial`: `round(log2 n)` subdivisions give
-    fewer than `n` chords for n = 5 (finding C06-round-arc-subdivision-rounded-down), never fewer than n/√2.
+  * `round_subdivision_enough` / `_tight`: `ceil(log2 n)` subdivisions give at least `n` chords (the
+    repaired finding C06-round-arc-subdivision-rounded-down, lyon commit da84e187), fewer than `2n`;
+    `chord_angle_le_step`, `sagitta_within_tolerance`: hence the flattening error of round joins/caps
+    is within the tolerance; `arc_vertices_on_circle`: the fan is inscribed in the circle of radius w/2;
+  * `square_cap_extension_covered`: cap shape at the model level (the oracle does not demand it).
 -/
 import LyonVerif.Model.Tess.StrokeQuad
 import LyonVerif.Lemmas.Field
@@ -405,33 +408,124 @@ example : ¬ (⟨0, 1⟩ : P ℚ).cross ⟨1, 0⟩ ≥ 0 ∧
   · simp [foldTest, geom]
 end examples
 
-/-! ### round joins and caps: the subdivision count (finding C06-round-arc-subdivision-rounded-down)
+/-! ### round joins and caps: the subdivision count and the flattening error
 
-`tessellate_round_join` / `tessellate_round_cap` need `n = ceil(arc / step)` chords to keep the
-flattening error within the tolerance and then subdivide `round(log2 n)` times, i.e. into
-`2^round(log2 n)` chords.  For an exact integer `n ≥ 1`, `round(log2 n) = ⌊log2(2n²)⌋ / 2`
-(no ties: `√2` is irrational); that integer function is what the two statements are about
-(the float evaluation is `Stroke.numSubdivisions`, C05; the harness computes the same predicate
-on every round/round input and the checker confirms the under-coverage on the real output). -/
+`tessellate_round_join` / `tessellate_round_cap` need `n = ceil(arc / step)` chords, where
+`step = 2·acos((r − tol)/r)` (`circle_flattening_step`), and subdivide `ceil(log2 n)` times, i.e.
+into `2^ceil(log2 n)` chords (lyon commit da84e187).  For an exact integer `n`, `ceil(log2 n)` is
+`ceilLog2` below; the float evaluation is `Stroke.numSubdivisions` (C05).
 
-/-- `round(log2 n)` for an exact integer `n ≥ 1` -/
-def roundLog2 (n : Nat) : Nat := Nat.log2 (2 * n * n) / 2
+History (finding C06-round-arc-subdivision-rounded-down, fixed by da84e187): the code used
+`.log2().round()`; with `roundLog2 n := Nat.log2 (2*n*n) / 2` the former witness was
+`roundLog2 5 = 2 ∧ 2 ^ roundLog2 5 < 5` (5 chords needed, 4 used: a 96° round join of width 1.13 at
+tolerance 0.0113 had sagitta 0.0124), and only `n*n < 2 * (2 ^ roundLog2 n)^2` held. -/
 
-/-- WITNESS: 5 chords are needed, `round(log2 5) = 2` subdivisions give 4 — fewer than needed, so the
-flattening error exceeds the tolerance (the property's "up to the tolerance" fails there). -/
-theorem round_subdivision_witness : roundLog2 5 = 2 ∧ 2 ^ roundLog2 5 < 5 := by decide
+/-- `ceil(log2 n)` for an exact integer `n` (0 for `n ≤ 1`) -/
+def ceilLog2 (n : Nat) : Nat := if n ≤ 1 then 0 else Nat.log2 (n - 1) + 1
 
-/-- what does hold: never fewer than `n/√2` chords (`n² < 2·(2^k)²`), i.e. the chord angle is at
-most `√2·step` and the flattening error at most about twice the tolerance. -/
-theorem round_subdivision_partial (n : Nat) : n * n < 2 * (2 ^ roundLog2 n) ^ 2 := by
-  unfold roundLog2
-  have h := Nat.lt_log2_self (n := 2 * n * n)
-  set L := Nat.log2 (2 * n * n) with hL
-  have h2 : L + 1 ≤ 2 * (L / 2) + 2 := by omega
-  have h3 : 2 ^ (L + 1) ≤ 2 ^ (2 * (L / 2) + 2) := Nat.pow_le_pow_right (by norm_num) h2
-  have h4 : 2 ^ (2 * (L / 2) + 2) = 4 * (2 ^ (L / 2)) ^ 2 := by
-    rw [pow_add, pow_mul']; ring
-  have : 2 * n * n < 4 * (2 ^ (L / 2)) ^ 2 := by omega
-  nlinarith
+/-- enough chords: `2^⌈log₂ n⌉ ≥ n` -/
+theorem round_subdivision_enough (n : Nat) : n ≤ 2 ^ ceilLog2 n := by
+  unfold ceilLog2
+  split
+  · omega
+  · have h := Nat.lt_log2_self (n := n - 1)
+    omega
+
+/-- and not more than twice too many: `2^(⌈log₂ n⌉ − 1) < n` for `n ≥ 2` -/
+theorem round_subdivision_tight (n : Nat) (hn : 2 ≤ n) : 2 ^ (ceilLog2 n - 1) < n := by
+  unfold ceilLog2
+  rw [if_neg (by omega)]
+  have h := Nat.log2_self_le (n := n - 1) (by omega)
+  simp only [Nat.add_sub_cancel]
+  omega
+
+example : ceilLog2 5 = 3 ∧ ceilLog2 8 = 3 ∧ ceilLog2 9 = 4 ∧ ceilLog2 1 = 0 := by decide
+
+/-- the angle of one chord: `arc / 2^k ≤ step` when `n ≥ arc/step` chords are needed and `2^k ≥ n` -/
+theorem chord_angle_le_step (arc step : K) (n k : Nat) (hstep : 0 ≤ step)
+    (hn : arc ≤ step * n) (hk : n ≤ 2 ^ k) : arc / (2:K) ^ k ≤ step := by
+  have hp : (0:K) < (2:K) ^ k := by positivity
+  rw [div_le_iff₀ hp]
+  have : (n : K) ≤ (2:K) ^ k := by exact_mod_cast hk
+  nlinarith [mul_le_mul_of_nonneg_left this hstep]
+
+section sagitta
+variable [Transc K]
+
+/-- The flattening error of a round join / cap is within the tolerance: a chord of half-angle
+`a ≤ step/2 = acos((r − tol)/r)` has sagitta `r·(1 − cos a) ≤ tol`.  Laws used (hypotheses): `cos` is
+antitone on `[0, π]`, `cos (acos x) = x` on `[-1, 1]`, `acos x ∈ [0, π]`. -/
+theorem sagitta_within_tolerance (r tol a : K) (hr : 0 < r) (ht0 : 0 ≤ tol) (htr : tol ≤ r)
+    (hanti : ∀ x y : K, 0 ≤ x → x ≤ y → y ≤ Transc.pi → Transc.cos y ≤ Transc.cos x)
+    (hacos : ∀ x : K, -1 ≤ x → x ≤ 1 → Transc.cos (Transc.acos x) = x ∧ 0 ≤ Transc.acos x ∧ Transc.acos x ≤ Transc.pi)
+    (ha0 : 0 ≤ a) (ha : a ≤ Transc.acos ((r - tol) / r)) :
+    r * (1 - Transc.cos a) ≤ tol := by
+  have hx1 : (r - tol) / r ≤ 1 := by rw [div_le_one hr]; linarith
+  have hx0 : -1 ≤ (r - tol) / r := by
+    have : 0 ≤ (r - tol) / r := div_nonneg (by linarith) (le_of_lt hr)
+    linarith
+  obtain ⟨hc, _, hpi⟩ := hacos _ hx0 hx1
+  have h := hanti a _ ha0 ha hpi
+  rw [hc] at h
+  have : r * ((r - tol) / r) = r - tol := by field_simp
+  nlinarith [mul_le_mul_of_nonneg_left h (le_of_lt hr)]
+
+/-- `circle_flattening_step` is twice that bound (the `min` clamps the tolerance to the radius) -/
+theorem flattening_step_eq (r tol : K) (htr : tol ≤ r) :
+    circleFlatteningStep r tol = 2 * Transc.acos ((r - tol) / r) := by
+  simp [circleFlatteningStep, geom, min_eq_left htr]
+end sagitta
+
+/-! ### the arc fan (`tessellate_arc`, C05's model): every new vertex is on the circle -/
+
+section arc
+variable [Transc K]
+
+/-- every vertex `tessellate_arc` adds keeps the centre and radius of the record it was called with
+and has a normal of unit length (`cos² + sin² = 1` is the law used): it lies on the circle of
+radius `w/2` around the join / end point — the fan is inscribed, so it never leaves the disc. -/
+theorem arc_vertices_on_circle (hcs : ∀ x : K, Transc.cos x * Transc.cos x + Transc.sin x * Transc.sin x = 1)
+    (n : Nat) : ∀ (a0 a1 : K) (va vb : Nat) (d : VData K) (o : Out K) (v : VData K),
+    v ∈ (tessellateArc a0 a1 va vb n d o).verts →
+    v ∈ o.verts ∨ (v.normal.sqLen = 1 ∧ v.positionOnPath = d.positionOnPath ∧ v.halfWidth = d.halfWidth) := by
+  induction n with
+  | zero => intro a0 a1 va vb d o v h; left; simpa [tessellateArc] using h
+  | succ n ih =>
+    intro a0 a1 va vb d o v h
+    simp only [tessellateArc] at h
+    rcases ih _ _ _ _ _ _ v h with h1 | ⟨h1, h2, h3⟩
+    · rcases ih _ _ _ _ _ _ v h1 with h4 | ⟨h4, h5, h6⟩
+      · simp only [Out.addTri, Out.addVertex, List.mem_append, List.mem_singleton] at h4
+        rcases h4 with h4 | h4
+        · left; exact h4
+        · right; subst h4
+          refine ⟨?_, rfl, rfl⟩
+          simp only [geom]; exact hcs _
+      · right; exact ⟨h4, h5, h6⟩
+    · right; exact ⟨h1, h2, h3⟩
+
+/-- a vertex with a unit normal is emitted at distance exactly `half_width` from its centre -/
+theorem unit_normal_position (d : VData K) (h : d.normal.sqLen = 1) :
+    (d.position - d.positionOnPath).sqLen = d.halfWidth * d.halfWidth := by
+  simp only [VData.position, geom] at h ⊢
+  linear_combination (d.halfWidth * d.halfWidth) * h
+end arc
+
+/-! ### square caps at the model level
+
+The property bounds only the REACH of a square cap (factor √2); it does not say the extension is
+covered, so the oracle does not demand it.  At the model level (tied bit for bit through `stroke2`)
+the extension is covered: with `cap_side_square` the first / last edge quad has its outer side points
+shifted by `e = (w/2)/|AB|` edge units, and `quad_covers_core` gives the whole rectangle lengthened by `e`. -/
+theorem square_cap_extension_covered (A B n : P K) (e s u : K) (he : 0 ≤ e)
+    (hs : -e ≤ s) (hs1 : s ≤ 1 + e) (hu : -1 ≤ u) (hu1 : u ≤ 1) :
+    let d := B - A
+    let T := edgeQuad (A - n + d.smul (-e)) (A + n + d.smul (-e)) (B + n + d.smul e) (B - n + d.smul e)
+    InTri (bandPoint A B n s u) T.1 ∨ InTri (bandPoint A B n s u) T.2 := by
+  apply quad_covers_core A B n (-e) (-e) e e s u (by linarith) (by linarith) hu hu1
+  · have : ((1 - u) * -e + (1 + u) * -e) / 2 = -e := by ring
+    rw [this]; exact hs
+  · have : ((1 - u) * e + (1 + u) * e) / 2 = e := by ring
+    rw [this]; exact hs1
 
 end Lyon.C06
